@@ -544,6 +544,33 @@ func genC15(r *Rng, tier string, idx int) *Program {
 			ops = append(ops, Op{Kind: "audit_timestamps", N: 5})
 		}
 	}
+	if r.Chance(0.3) {
+		// a process that goes down with level-0 files it could not upload, and a
+		// snapshot (or other upload) taken by the next process before the backlog
+		// is worked off: replication times of the backlog are later than anything
+		// the replica held when the new process started
+		p.Variant = "outage-restart"
+		for k := r.Range(1, 2); k > 0; k-- {
+			ops = append(ops, appOp(genTxn(r, &p.Cfg)), Op{Kind: "ls_sync_wait"})
+		}
+		ops = append(ops, Op{Kind: "store_down"})
+		for k := r.Range(1, 3); k > 0; k-- {
+			ops = append(ops, appOp(genTxn(r, &p.Cfg)), Op{Kind: PickOf(r, []string{"ls_sync", "ls_sync_wait"})})
+		}
+		ops = append(ops, Op{Kind: "ls_restart"}, Op{Kind: "store_up"}, Op{Kind: "sleep", Ms: 3000})
+		switch r.Intn(3) {
+		case 0:
+			ops = append(ops, Op{Kind: "ls_snapshot"})
+		case 1:
+			ops = append(ops, Op{Kind: "ls_compact", Level: 9})
+		default:
+			ops = append(ops, Op{Kind: "ls_sync"}, Op{Kind: "ls_snapshot"})
+		}
+		ops = append(ops, Op{Kind: "sleep", Ms: 2000}, appOp(genTxn(r, &p.Cfg)), Op{Kind: "ls_sync_wait"})
+		if r.Chance(0.5) {
+			ops = append(ops, Op{Kind: "sleep", Ms: 6000}, Op{Kind: "ls_compact", Level: 1})
+		}
+	}
 	p.Ops = append(ops, Op{Kind: "audit_timestamps", N: 14})
 	return p
 }
